@@ -69,6 +69,24 @@ def shapes():
     out.append(_t("function fib(int k) -> int { if (k < 2) return k; return fib(k - 1) + fib(k - 2) + k; }\nexport function f(int n) -> int { return fib(n); }", "tree recursion same expr", ["recursion"], {"n": (0, 4)}))
     out.append(_t("function odd(int k) -> int { if (k == 0) return 0; k = k - 1; return even(k); }\nfunction even(int k) -> int { if (k == 0) return 1; k = k - 1; return odd(k); }\nexport function f(int n) -> int { return even(n) * 10 + odd(n) + n * 100; }", "mutual recursion", ["recursion"], {"n": (0, 4)}, small=True))
     out.append(_t("function down(int k, int d) -> int { if (k <= 0) return d; int r = down(k - 1, d + 1); return r * 10 + k + d; }\nexport function f(int n, int a) -> int { return down(n, a); }", "recursion locals per activation", ["recursion"], {"n": (0, 3), "a": (0, 3)}))
+    # mutual recursion: the caller's parameters and locals are read after the other function returned (the frames of A, B, A, ... are all live),
+    # in both definition orders, entered through either function
+    PING = "function ping(int k, int d) -> int { if (k <= 0) return d; int r = pong(k - 1, d + 1); return r * 2 + k + d; }\n"
+    PONG = "function pong(int k, int d) -> int { if (k <= 0) return 0 - d; int r = ping(k - 1, d + 2); k = k + r; return k - d; }\n"
+    for order, nm in ((PING + PONG, "ping first"), (PONG + PING, "pong first")):
+        out.append(_t(order + "export function f(int n, int a) -> int { return ping(n, a) * 3 + n; }", f"mutual recursion, live frames, {nm}, enter ping", ["recursion", "mutual"], {"n": (0, 4)}, small=True))
+        out.append(_t(order + "export function f(int n, int a) -> int { int x = pong(n, a); int y = ping(n, x); return x * 7 + y; }", f"mutual recursion, live frames, {nm}, enter both", ["recursion", "mutual"], {"n": (0, 3)}, small=True))
+    out.append(_t("function a3(int k) -> int { if (k <= 0) return 1; int r = b3(k - 1); return r + k; }\nfunction b3(int k) -> int { if (k <= 0) return 2; int r = c3(k - 1); return r * 2 + k; }\n"
+                  "function c3(int k) -> int { if (k <= 0) return 3; int r = a3(k - 1); return r - k; }\nexport function f(int n) -> int { return a3(n) * 100 + b3(n) * 10 + c3(n); }",
+                  "cycle of three functions, live frames", ["recursion", "mutual"], {"n": (0, 4)}, small=True))
+    # ... with effects on and reads of global state: every call runs its callee again, whatever was computed for the same arguments before
+    EVEN = "int steps;\nint bias;\nfunction isEven(int k) -> int { if (k == 0) return 1; int r = isOdd(k - 1); steps = steps + 1; return r; }\nfunction isOdd(int k) -> int { if (k == 0) return 0; return isEven(k - 1); }\n"
+    out.append(_t(EVEN + "export function f(int n) -> int { int a = isEven(n); int b = isEven(n); return (a + b) * 100 + steps; }", "mutual recursion counts steps, same call twice", ["recursion", "mutual", "global"], {"n": (0, 4)}, small=True))
+    out.append(_t(EVEN + "export function f(int n) -> int { int a = isOdd(n); int b = isOdd(n); int c = isEven(n); return a * 1000 + b * 100 + c * 10 + steps; }", "mutual recursion counts steps, enter through the other function", ["recursion", "mutual", "global"], {"n": (0, 4)}, small=True))
+    UP = "int bias;\nfunction up(int k) -> int { if (k < 1) return 0; int r = over(k - 1); return r + bias; }\nfunction over(int k) -> int { if (k < 1) return 0; return up(k - 1) + 1; }\n"
+    out.append(_t(UP + "export function f(int n, int a) -> int { bias = a; int x = up(n); bias = bias + 10; int y = up(n); return (y - x) * 100 + over(n); }", "mutual recursion reads a global that changes between two identical calls", ["recursion", "mutual", "global"], {"n": (0, 4)}, small=True))
+    out.append(_t("int g1;\nfunction twice(int x) -> int { return x * 2; }\nfunction bumped(int x) -> int { g1 = g1 + 1; return twice(x) + g1; }\nexport function f(int a) -> int { int r = bumped(a); int s = bumped(a); int t = twice(a); int u = twice(a); return r * 1000 + s * 100 + t * 10 + u + g1; }",
+                  "same call repeated, impure through a global and pure", ["sequential", "global"], small=True))
     out.append(_t("int g1;\nfunction bump(int x) -> int { g1 = g1 + x; x = 0; return g1; }\nexport function f(int a, int b) -> int { int r = bump(a); int s = bump(b); return r * 100 + s * 10 + g1 + a + b; }", "callee writes global", ["global"], small=True))
     out.append(_t("int g1;\nfunction set(int x) -> void { g1 = x; x = 0; }\nexport function f(int a, int b) -> int { set(a + b); return g1 * 10 + a; }", "void callee", ["void", "global"], small=True))
     out.append(_t("int g1;\nfunction set(int x) -> void { if (x > 0) { g1 = x; return; } g1 = 0 - x; }\nexport function f(int a) -> int { set(a); return g1 + a; }", "void callee early return", ["void", "global"]))
